@@ -23,3 +23,4 @@ _reg("C14")
 _reg("C15")
 _reg("C16")
 _reg("C17", "interp")
+_reg("C27")
